@@ -3,5 +3,6 @@ CONSTANTS
   P = 3
   J = 3
   R = 1
+  BossWorks = TRUE
 INVARIANTS TypeOK ExactlyOnce AtMostOnce MapTruthful MapComplete RealJobs Drained StackSound FinishSafe
 CHECK_DEADLOCK FALSE
